@@ -165,8 +165,8 @@ def _check_loss(ctx, pairs, effs, ref, hyp, logits, eos, include_eos, cost, tier
         # whose prefixes have no target at all, next to ordinary ones) is constrained in every reduction
         idx = torch.tensor(keep)
         _check_loss(ctx, [pairs[n] for n in keep], [effs[n] for n in keep], ref[:, idx], hyp[:, idx],
-                    logits.detach()[:, idx].clone().requires_grad_(logits.requires_grad), eos, include_eos, cost, tier,
-                    tag, seed, sigma, variant, sub=True)
+                    logits.detach()[:, idx].clone().requires_grad_(logits.requires_grad), eos, include_eos, cost, "quick",
+                    tag, seed, sigma, variant, sub=True)  # the quick weight menu: the sub-batch adds references, not weights
     lsm = torch.log_softmax(logits.detach().double(), -1).tolist()
     weights = [None, [0.5, 2.0, 1.0], [0.0, 1.0, 1.0]] if tier == "thorough" else [None, [0.0, 2.0, 1.0]]
     for batch_first, reduction, weight in itertools.product((False, True), ("none", "sum", "mean"), weights):
